@@ -345,3 +345,27 @@ Definition so_graph_remove_node (g : cg_data) (index : Z) : cprog unit :=
   count <~ cg_node_count g ;;
   cg_set_node_count g (count - 1) ;;~
   cp_commit id.
+
+(* ------------------------------------------------------------------------- *)
+(* removal of an element through the public API (correspondence only)         *)
+(* ------------------------------------------------------------------------- *)
+(* DbKeyValues::remove: the element's vector is freed (remove_from_storage: every pair's out-of-line records, the vector
+   record), the slot is removed when it is the last one, else set to 0 *)
+Definition so_kv_remove (vh : cv_vec) (index : N) : cprog cv_vec :=
+  v <~ so_kv_valid_index vh index ;;
+  if negb v then CRet vh else
+  k <~ so_kv_kvs vh index ;;
+  cv_remove_from_storage kv ce_dbkv k ;;~
+  if cv_len vh - 1 =? index then r <~ cv_remove N ce_u64 vh index ;; CRet (fst r)
+  else cv_replace N ce_u64 vh index 0 ;;~ CRet vh.
+
+(* QueryBuilder::remove().ids(id) for an EDGE id (< 0), or a NODE id (> 0) that has no edges and no alias, none of whose
+   keys is indexed: DbImpl::remove_id = graph.remove_edge / graph.remove_node (node_edges is empty: no cascade), then
+   remove_all_values = DbKeyValues::remove — inside transaction_mut's storage transaction; the reads in between
+   (graph_index, aliases.key, node_edges, values) do not write *)
+Definition so_q_remove (h : so_db) (id : Z) : cprog so_db :=
+  tx <~ cp_transaction ;;
+  (if (id <? 0)%Z then so_graph_remove_edge (so_graph h) id else so_graph_remove_node (so_graph h) id) ;;~
+  vh <~ so_kv_remove (so_values h) (cg_as_u64 id) ;;
+  cp_commit tx ;;~
+  CRet (so_with_values h vh).
